@@ -769,13 +769,201 @@ func c03F70Prefix(r *vg.Rand, state sm.State, pvs []types.MockPV, net *c01Net) b
 		hD.cs.LockedRound == 1 && hD.cs.LockedBlock != nil && hD.cs.LockedBlock.HashesTo(bY.Hash)
 }
 
+// c03F83Prefix: the directed asynchronous prefix of finding F83 (4 equal validators; with the
+// rotation q of height 1: B = q[0], C = q[1] correct, D = q[2] faulty, A = q[3] correct).  D
+// equivocates in prevotes, tells different nodes different things, relays B's and C's genuine votes
+// to A early, and is silent afterwards.  Round 0: B proposes X, only A sees the polka (A, B, D) and
+// locks X.  Round 1: C proposes Y, A prevotes X, B and C see the polka for Y after their nil
+// precommit (valid block Y, not locked).  Round 2: D re-proposes (Y, POL round 1); A, still in
+// round 1, is given the three round-2 prevotes for Y, is carried to round 2 and receives the
+// proposal whose POL it does not hold: ValidBlock Y / ValidRound 2, step Propose, still locked on
+// X.  Rounds 3..5: nothing forms.  Round 6: D proposes (X, POL round 0), B and C prevote X; A is
+// given the three round-6 prevotes for X (carried to round 6, step Propose) and the +2/3
+// precommits for nil: enterPrecommit RE-LOCKS X with LockedRound 6.  Before the repair ValidBlock
+// stayed Y: A then proposed Y and prevoted X for ever, and with D silent no block gets +2/3
+// although every message is delivered.  Returns whether A reached round 7 locked on X since round 6.
+func c03F83Prefix(r *vg.Rand, state sm.State, pvs []types.MockPV, net *c01Net) bool {
+	q := c01Rotation(state, 4)
+	B, C, D, A := q[0], q[1], q[2], q[3]
+	nodeOf := map[int]*c02Harness{}
+	for _, h := range net.nodes {
+		nodeOf[h.me] = h
+	}
+	hA, hB, hC := nodeOf[A], nodeOf[B], nodeOf[C]
+	if hA == nil || hB == nil || hC == nil {
+		return false
+	}
+	dpeer := p2p.ID(fmt.Sprintf("p%d", D+1))
+	dl := func(h *c02Harness, mi msgInfo) {
+		h.got = append(h.got, mi)
+		tm, d := h.inputTerm(mi)
+		h.deliver(tm, d, func() { h.cs.handleMsg(mi) })
+	}
+	pull := func(h *c02Harness, pred func(mi msgInfo) bool) {
+		for {
+			idx := -1
+			for i, mi := range net.inbox[h] {
+				if pred(mi) {
+					idx = i
+					break
+				}
+			}
+			if idx < 0 {
+				return
+			}
+			mi := net.inbox[h][idx]
+			net.inbox[h] = append(net.inbox[h][:idx:idx], net.inbox[h][idx+1:]...)
+			dl(h, mi)
+		}
+	}
+	votes := func(ty tmproto.SignedMsgType, round int32, from ...int) func(msgInfo) bool {
+		return func(mi msgInfo) bool { return isVote(mi, ty, round, setOf(from)) }
+	}
+	blockOf := func(round int32) func(msgInfo) bool {
+		return func(mi msgInfo) bool {
+			switch m := mi.Msg.(type) {
+			case *ProposalMessage:
+				return m.Proposal.Round == round
+			case *BlockPartMessage:
+				return m.Round == round
+			}
+			return false
+		}
+	}
+	fire := func(h *c02Harness, step cstypes.RoundStepType) {
+		s := h.ticker.scheduled
+		for i := len(s) - 1; i >= 0; i-- {
+			if s[i].Height == h.cs.Height && s[i].Round == h.cs.Round && s[i].Step == step {
+				h.fire(s[i], "timeout")
+				return
+			}
+		}
+	}
+	PV, PC := tmproto.PrevoteType, tmproto.PrecommitType
+	nilID := types.BlockID{}
+	bc := []*c02Harness{hB, hC}
+	dVote := func(to []*c02Harness, ty tmproto.SignedMsgType, round int32, bid types.BlockID) {
+		net.publishTo(to, msgInfo{&VoteMessage{hA.mkVote(r, D, ty, 1, round, bid)}, dpeer})
+	}
+	ok := true
+	dPropose := func(to []*c02Harness, round, polr int32, bid types.BlockID, parts *types.PartSet) {
+		prop := types.NewProposal(1, round, polr, bid)
+		pp := prop.ToProto()
+		if err := pvs[D].SignProposal(state.ChainID, pp); err != nil {
+			ok = false
+			return
+		}
+		prop.Signature = pp.Signature
+		net.publishTo(to, msgInfo{&ProposalMessage{prop}, dpeer})
+		for i := 0; i < int(parts.Total()); i++ {
+			net.publishTo(to, msgInfo{&BlockPartMessage{1, round, parts.GetPart(i)}, dpeer})
+		}
+	}
+	// B and C in a round in which nothing forms: prevotes (own, the other's, D: nil), precommits nil
+	quietRest := func(round int32) {
+		dVote(bc, PV, round, nilID)
+		pull(hB, votes(PV, round, C, D))
+		pull(hC, votes(PV, round, B, D))
+		for _, h := range bc {
+			if h.cs.Round == round && h.cs.Step == cstypes.RoundStepPrevoteWait {
+				fire(h, cstypes.RoundStepPrevoteWait)
+			}
+		}
+		dVote(bc, PC, round, nilID)
+		pull(hB, votes(PC, round, C, D))
+		pull(hC, votes(PC, round, B, D))
+		fire(hB, cstypes.RoundStepPrecommitWait)
+		fire(hC, cstypes.RoundStepPrecommitWait)
+	}
+	// round 0: B proposes X; A locks X
+	for _, h := range []*c02Harness{hA, hB, hC} {
+		fire(h, cstypes.RoundStepNewHeight)
+	}
+	if hB.cs.ProposalBlock == nil {
+		return false
+	}
+	bX := types.BlockID{Hash: hB.cs.ProposalBlock.Hash(), PartSetHeader: hB.cs.ProposalBlockParts.Header()}
+	partsX := hB.cs.ProposalBlockParts
+	pull(hA, blockOf(0))
+	fire(hC, cstypes.RoundStepPropose)
+	dVote([]*c02Harness{hA}, PV, 0, bX)
+	pull(hA, votes(PV, 0, B, D))
+	pull(hB, votes(PV, 0, A, C))
+	fire(hB, cstypes.RoundStepPrevoteWait)
+	pull(hC, votes(PV, 0, A, B))
+	fire(hC, cstypes.RoundStepPrevoteWait)
+	pull(hB, votes(PC, 0, A, C))
+	fire(hB, cstypes.RoundStepPrecommitWait)
+	pull(hC, votes(PC, 0, A, B))
+	fire(hC, cstypes.RoundStepPrecommitWait) // C enters round 1 and proposes Y
+	pull(hA, votes(PC, 0, B, C))
+	fire(hA, cstypes.RoundStepPrecommitWait)
+	dVote(bc, PV, 0, bX) // late: B and C hold the polka of round 0
+	pull(hB, votes(PV, 0, D))
+	pull(hC, votes(PV, 0, D))
+	if hC.cs.ProposalBlock == nil || hC.cs.Round != 1 {
+		return false
+	}
+	bY := types.BlockID{Hash: hC.cs.ProposalBlock.Hash(), PartSetHeader: hC.cs.ProposalBlockParts.Header()}
+	partsY := hC.cs.ProposalBlockParts
+	// round 1: C proposes Y; A does not get it and prevotes X
+	pull(hB, blockOf(1))
+	fire(hA, cstypes.RoundStepPropose)
+	pull(hB, votes(PV, 1, A, C))
+	fire(hB, cstypes.RoundStepPrevoteWait)
+	pull(hC, votes(PV, 1, A, B))
+	fire(hC, cstypes.RoundStepPrevoteWait)
+	pull(hA, votes(PV, 1, B, C))
+	fire(hA, cstypes.RoundStepPrevoteWait)
+	dVote(bc, PV, 1, bY) // late: polka for Y of round 1 at B and C, after their precommit
+	pull(hB, votes(PV, 1, D))
+	pull(hC, votes(PV, 1, D))
+	pull(hB, votes(PC, 1, A, C))
+	fire(hB, cstypes.RoundStepPrecommitWait)
+	pull(hC, votes(PC, 1, A, B))
+	fire(hC, cstypes.RoundStepPrecommitWait)
+	// round 2: D re-proposes (Y, POL round 1); A is carried to round 2 by the polka, then gets the proposal
+	dPropose(bc, 2, 1, bY, partsY)
+	pull(hB, blockOf(2))
+	pull(hC, blockOf(2))
+	dVote([]*c02Harness{hA}, PV, 2, bY)
+	pull(hA, votes(PV, 2, B, C, D))
+	dPropose([]*c02Harness{hA}, 2, 1, bY, partsY)
+	pull(hA, blockOf(2))
+	quietRest(2)
+	// round 3 (proposer A, still in round 2), round 4 (proposer B), round 5 (proposer C)
+	fire(hB, cstypes.RoundStepPropose)
+	fire(hC, cstypes.RoundStepPropose)
+	quietRest(3)
+	pull(hC, blockOf(4))
+	quietRest(4)
+	pull(hB, blockOf(5))
+	quietRest(5)
+	// round 6: D proposes (X, POL round 0) to B and C; A is carried to round 6 and re-locks X
+	dPropose(bc, 6, 0, bX, partsX)
+	pull(hB, blockOf(6))
+	pull(hC, blockOf(6))
+	dVote([]*c02Harness{hA}, PV, 6, bX)
+	pull(hA, votes(PV, 6, B, C, D))
+	quietRest(6)
+	dVote([]*c02Harness{hA}, PC, 6, nilID)
+	pull(hA, votes(PC, 6, B, C, D))
+	fire(hA, cstypes.RoundStepPrecommitWait)
+	return ok && hA.cs.Height == 1 && hA.cs.Round == 7 && hA.cs.LockedRound == 6 && hA.cs.LockedBlock != nil && hA.cs.LockedBlock.HashesTo(bX.Hash) &&
+		hB.cs.LockedBlock == nil && hC.cs.LockedBlock == nil && hB.cs.Round == 7 && hC.cs.Round == 7
+}
+
 // c03Run: an adversarial asynchronous prefix (as in C01, equal powers so that the proposer
 // rotation is a plain round robin) followed by a synchronous suffix.
 func c03Run(r *vg.Rand, k int) (term, descr string, allDecided bool, kind string) {
 	nv := 4 + r.Intn(3)
 	scripted := k%4 == 3
 	directed := k%20 == 9 // the directed scenario of finding F70 (a lock carried past the polka that releases it)
-	if scripted || directed {
+	directed83 := k%20 == 19 // the directed scenario of finding F83 (a re-lock that leaves a stale valid block)
+	if directed83 {
+		scripted = false
+	}
+	if scripted || directed || directed83 {
 		nv = 4
 	}
 	powers := make([]int64, nv)
@@ -790,6 +978,9 @@ func c03Run(r *vg.Rand, k int) (term, descr string, allDecided bool, kind string
 	if directed {
 		net.faulty = []int{c01Rotation(state, 4)[0]}
 		opName = "f70-lock-carried-past-the-releasing-polka"
+	} else if directed83 {
+		net.faulty = []int{c01Rotation(state, 4)[2]}
+		opName = "f83-relock-with-stale-valid-block"
 	} else if scripted {
 		var f int
 		f, opening, opName = c01Opening(r, c01Rotation(state, 4), (k/4)%4)
@@ -825,6 +1016,9 @@ func c03Run(r *vg.Rand, k int) (term, descr string, allDecided bool, kind string
 	directedOK := true
 	if directed {
 		directedOK = c03F70Prefix(r, state, pvs, net)
+		prefix = 0
+	} else if directed83 {
+		directedOK = c03F83Prefix(r, state, pvs, net)
 		prefix = 0
 	} else if scripted {
 		c01RoundsRun(r, net, pvs, opening, len(opening)+r.Intn(3))
@@ -864,7 +1058,7 @@ func c03Run(r *vg.Rand, k int) (term, descr string, allDecided bool, kind string
 	if scripted && r.Bool() { // the faulty validators fall silent: termination must not depend on their help
 		syncByz = 0
 	}
-	if directed { // the faulty validator is silent from now on
+	if directed || directed83 { // the faulty validator is silent from now on
 		syncByz = 0
 	}
 	c03Sync(r, net, pvs, h0, bound+2, syncByz)
@@ -942,6 +1136,10 @@ func c03Run(r *vg.Rand, k int) (term, descr string, allDecided bool, kind string
 	if directed {
 		kind = "directed-" + opName + "/" + kind
 		fmt.Fprintf(&d, " prefix: DIRECTED scenario %q (finding F70; intended locks reached: %v): F proposes X in round 0, A locks X (prevotes of C and F), C and D see no polka and precommit nil; C proposes Y in round 1, C and D lock Y on the prevotes of C, D, F; A receives these three prevotes while still in round 0 (polka for Y recorded, no unlock, skip to round 1), then the round-2 prevotes of C, D (Y) and F (nil) (skip to round 2 without prevoting in round 1); from then on F is silent and every message is delivered;", opName, directedOK)
+	}
+	if directed83 {
+		kind = "directed-" + opName + "/" + kind
+		fmt.Fprintf(&d, " prefix: DIRECTED scenario %q (finding F83; A in round 7 locked on X since round 6, B and C unlocked: %v): B proposes X in round 0, only A sees the polka (A, B, D) and locks X; C proposes Y in round 1, A prevotes X, B and C see the polka for Y after their nil precommit (valid block Y); D re-proposes (Y, POL round 1) in round 2, A - still in round 1 - receives the three round-2 prevotes for Y (carried to round 2) and then the proposal whose POL it does not hold (ValidBlock Y, step Propose, still locked on X); rounds 3..5 form nothing; D proposes (X, POL round 0) in round 6, B and C prevote X and D tells them nil, A receives the three round-6 prevotes for X (carried to round 6) and the +2/3 precommits for nil: enterPrecommit re-locks X with LockedRound 6; from then on D is silent and every message is delivered;", opName, directedOK)
 	}
 	return term, d.String(), allDecided, kind
 }
